@@ -68,12 +68,11 @@ Local Notation xrep := (xrep types CLO).
 Local Notation xflds := (xflds types CLO).
 Local Notation xreps := (xreps types CLO).
 
-Theorem hsim_load cE bq cx heE x vq q fs (e1 : env) hs s sp lc cl lc1 pc lk hl fl cl0 :
-  hrel (cE ++ [bq]) (heE ++ [(x, vq, q)]) hs s sp ->
-  List.length heE = List.length cE ->
+Theorem hsim_load cE cx heE x vq q fs (e1 : env) hs s sp lc cl lc1 pc lk hl fl cl0 :
+  hrel cE heE hs s sp ->
   lget s sp (mtpos (2 * N.of_nat (List.length cE))) = Some q ->
   xflds (hword s) fs q -> fs <> [] ->
-  map snd e1 = fs -> map fst e1 = vars cx ->
+  map snd e1 = fs -> env_ids e1 = ids cx ->
   Forall2 (fun b f => chi_of f = bchi b /\ ty_of f = bty b) cx fs ->
   NoDup (ids (cE ++ cx)) ->
   InvA HEAP_BASE hs (roots (heE ++ [(x, vq, q)])) hl fl cl0 -> P03 hs ->
@@ -84,7 +83,8 @@ Theorem hsim_load cE bq cx heE x vq q fs (e1 : env) hs s sp lc cl lc1 pc lk hl f
     hrel (cE ++ cx) (heE ++ attach e1 (load_ptrs hs (List.length fs) q))
          (Heap.load_object (Heap.nlinks (List.length fs)) q hs) s' sp.
 Proof.
-  intros R L0 LQ XF NE E1S E1F KIN ND IA K03 RF HFr XL CA LA.
+  intros R LQ XF NE E1S E1F KIN ND IA K03 RF HFr XL CA LA.
+  pose proof (hrel_length R) as L0.
   pose proof (Forall2_len _ _ _ KIN) as Lcx.
   set (n := List.length fs) in *. set (k := Heap.nlinks n). set (w := hword s). set (F := Heap.frontier hs).
   assert (Hn : (0 < n)%nat) by (unfold n; destruct fs; [congruence|cbn; lia]).
@@ -113,7 +113,8 @@ Proof.
   assert (BND : forall y, is_blk y -> 0 <= hword s y <= HB).
   { intros y Hy. destruct (heq_abs_ps F s hs y HQ Hy) as [_ E]. rewrite <- E.
     eapply hdr_bounds_x; [exact IA|apply P03_P3; exact K03|exact HFr| |exact Hy].
-    pose proof (roots_length (heE ++ [(x, vq, q)])). pose proof (hrel_small types CLO _ _ _ _ _ R). lia. }
+    pose proof (roots_length (heE ++ [(x, vq, q)])) as RL. rewrite app_length in RL. cbn [List.length] in RL.
+    pose proof (hrel_small types CLO _ _ _ _ _ R). lia. }
   pose proof (x_load_temps cx cE lc cl lc1 XL NEcx) as TMP.
   assert (ROOM : forall y, is_blk y -> min_int + 1 <= hword s y /\ hword s y + Z.of_nat (List.length cx) <= max_int).
   { intros y Hy. specialize (BND y Hy). unfold MAXPOS in TMP. unfold HB, min_int, max_int, two63 in *. lia. }
@@ -141,7 +142,6 @@ Proof.
   (* the pointers of the machine are the loaded words *)
   assert (LP : load_ptrs hs n q = map w (skipn (List.length A - n) A)).
   { unfold n, w, A, k. apply (load_ptrs_words F s hs lk fs q HQ K03 NE RF). exact FB. }
-  pose proof (hrel_length R) as LEN. rewrite !app_length in LEN. cbn [List.length] in LEN.
   exists s'. split; [|split].
   - rewrite <- pnth_padd. apply steps_exec_to. exact ST.
   - split; [exact OUT|exact SF].
@@ -149,14 +149,12 @@ Proof.
     + rewrite RH'. now rewrite EH.
     + rewrite RFR, Fr. now rewrite EFREE.
     + rewrite EF'. exact HQ1.
-    + unfold env_ids, ids, erase_env in *. rewrite !map_app in *. cbn [map] in Ids.
-      apply app_inj_tail in Ids as [Ids _]. rewrite Ids. f_equal.
-      fold (erase_env (attach e1 (load_ptrs hs n q))). rewrite attach_erase.
-      rewrite <- (map_map fst idn), E1F. unfold vars. now rewrite map_map.
+    + unfold env_ids, ids, erase_env in *. rewrite !map_app. f_equal; [exact Ids|].
+      fold (erase_env (attach e1 (load_ptrs hs n q))). rewrite attach_erase. exact E1F.
     + intros i y v p Hi. destruct (Nat.lt_ge_cases i (List.length heE)) as [Li|Li].
       * rewrite nth_error_app1 in Hi by exact Li.
-        destruct (Vals i y v p) as (b & Hb & V); [rewrite nth_error_app1 by exact Li; exact Hi|].
-        rewrite nth_error_app1 in Hb by lia. exists b. split; [rewrite nth_error_app1 by lia; exact Hb|].
+        destruct (Vals i y v p Hi) as (b & Hb & V).
+        exists b. split; [rewrite nth_error_app1 by lia; exact Hb|].
         destruct V as [b z p t A0 B T Lg|b v p a t1 t2 A0 K1 K2 T1 T2 Lg1 Lg2 X].
         -- eapply hv_int; eauto. apply xtpos_mtpos in T as [-> _]. rewrite KEEP; [exact Lg|]. cbn [tnum_n]. lia.
         -- pose proof T1 as T1'. pose proof T2 as T2'.
@@ -171,9 +169,6 @@ Proof.
         { rewrite <- E1S. rewrite nth_error_map, He1. reflexivity. }
         assert (Lj : (j < n)%nat) by (apply nth_error_Some_lt in Hf; exact Hf).
         destruct (nth_error cx j) as [b|] eqn:Hb; [|apply nth_error_None in Hb; lia].
-        assert (Ey : bvar b = y).
-        { assert (H1 : nth_error (map fst e1) j = Some y) by (rewrite nth_error_map, He1; reflexivity).
-          rewrite E1F in H1. unfold vars in H1. rewrite nth_error_map, Hb in H1. cbn in H1. congruence. }
         exists b. split; [rewrite nth_error_app2 by lia; replace (i - List.length cE)%nat with j by lia; exact Hb|].
         destruct (Forall2_nth _ _ _ _ _ _ KIN Hb Hf) as [Kc Kt].
         destruct (LD j b Hb) as [LS LF]. cbv zeta in LS, LF.
